@@ -131,6 +131,50 @@ def coq_spec_check(ctx, results, report=True, what="weights"):
                     break
 
 
+def model_spec_check(ctx, results):
+    """C06_operand_order_on_the_model is a theorem about the property's own definition of weights on the MODEL
+    (Spec/Weights.spec_of).  Here that definition is evaluated by the extracted specification (op 504) on every generated
+    model whose graph has no cycle and compared with the weights the IMPLEMENTATION stored on the relation nodes — wherever
+    every operand of an intersection/exclusion is one edge (outside known finding K-C04-operands the two notions of operand
+    coincide) — and with the independent Python oracle."""
+    from lib import graphspec as gs
+    rs = [r for r in results if r is not None and not gs.degenerate(r["m"])]
+    try:
+        specs = ctx.model(FAM, ["(504 %s)" % sexp.enc(r["m"]) for r in rs])
+    except core.ModelUnavailable:
+        return
+    for r, sp in zip(rs, specs):
+        if sp is None or not sp or sp[0] != 1:
+            ctx.count("model_spec_not_applicable")
+            continue
+        if not gs.simple_operands(r["m"]):
+            ctx.count("model_spec_multi_edge_operands")
+            continue
+        want = {T(x[0]): dict((T(k), v) for k, v in x[1]) for t in sp[1] for x in t}
+        py = gs.spec_weights(r["m"]) if gs.builder_valid(r["m"]) else None
+        if py is not None and gs.well_founded(r["m"]):
+            for (t, rel), w in py.items():
+                if want.get(t + "#" + rel) != w:
+                    raise RuntimeError("specification drift between Spec/Weights.spec_of and run/lib/graphspec.spec_weights on %r: %s#%s %r vs %r"
+                                       % (r["m"], t, rel, want.get(t + "#" + rel), w))
+        ctx.count("model_spec_applicable")
+        for (o, a, b) in r["ordered"]:
+            if a[0] != "ok":
+                continue
+            ctx.count("model_spec_orders_compared")
+            for nid, w in want.items():
+                got = dict(a[1]["nodes"].get(nid, {}).get("weights", []))
+                if got != w:
+                    ctx.violation("weights-differ-from-model-level-spec",
+                                  {"model": r["m"], "order": o, "node": nid, "impl": got, "spec": w,
+                                   "why": "on a model without cycles whose operands are single edges the implementation stores weights other than "
+                                          "Spec/Weights.spec_of, the property's definition on the model"})
+                    break
+            else:
+                continue
+            break
+
+
 def describe(m):
     """a model as DSL-like text when printable, for replays and samples"""
     return m
